@@ -1,18 +1,5 @@
 #!/bin/bash
-# development helper: run every confirmed seed (own property) and every neutral refactor (all properties)
-# through `rcheck -try-patch`; writes /verif/seeded/RESULTS.txt (seeds) and prints neutral results.
+# development helper: run every confirmed seed against the check of its own property; writes seeded/RESULTS.txt
 cd /verif
-out=seeded/RESULTS.txt
-: > $out.tmp
-for d in seeded/C*-*; do
-  id=$(basename $d); prop=${id%%-*}
-  res=$(bin/rcheck -try-patch $d/patch.diff -props $prop | tr '\n' ' ' | cut -c1-300)
-  echo "$id  $res" >> $out.tmp
-done
-mv $out.tmp $out
-if [ "$1" = neutral ]; then
-  for n in /tmp/seed/N*/NEUTRAL/*/patch.diff /tmp/seed/NX/*.diff; do
-    [ -f $n ] || continue
-    echo "== $n: $(bin/rcheck -try-patch $n | tr '\n' ' ' | cut -c1-300)"
-  done
-fi
+ls -d seeded/C*-* | xargs -P ${1:-3} -I{} sh -c 'id=$(basename {}); prop=${id%%-*}; echo "$id  $(bin/rcheck -try-patch {}/patch.diff -props $prop | tr "\n" " " | cut -c1-300)"' | sort > seeded/RESULTS.txt.tmp
+mv seeded/RESULTS.txt.tmp seeded/RESULTS.txt
